@@ -12,7 +12,7 @@
    Mode "face":  transport URIs over all supported and some unsupported schemes, hosts, ports. *)
 EXTENDS ClientConf
 CONSTANTS Mode, Thorough
-VARIABLES x, out
+VARIABLES kind, x, out
 
 MaxOf(S) == CHOOSE a \in S : \A b \in S : a >= b
 Patterns == IF Thorough THEN {E \in SUBSET (1..4) : Cardinality(E) <= 2}
@@ -26,40 +26,45 @@ KeyFns(E) ==
           k1 \in [Settings -> KeyStates],
           k2 \in (IF f1 = f2 THEN {All("absent")} ELSE {All("absent"), All("present")})}
 Cfg(E, k, e, l, d) == [n |-> 4, exist |-> E, key |-> k, env |-> e, loc |-> l, defx |-> d]
-Diagonal == UNION {{Cfg(E, k, e, [s \in Stores |-> lc], [s \in Stores |-> dx]) :
-                      k \in KeyFns(E), e \in [Settings -> BOOLEAN], lc \in LocClasses, dx \in DefLists} : E \in Patterns}
-Cross == UNION {{Cfg(E, [i \in 1..4 |-> IF i \in E THEN All(ks) ELSE All("absent")], All(b), l, d) :
-                   ks \in KeyStates, b \in BOOLEAN, l \in [Stores -> LocClasses], d \in [Stores -> DefLists]} : E \in {{}, {2}}}
-Configs == Diagonal \cup Cross
+\* (the product is enumerated by TLC through the quantifiers of Init; building it as one set value first
+\*  made TLC spend minutes normalising a set of 7*10^4 large records)
+InitDiagonal == \E E \in Patterns : \E k \in KeyFns(E) : \E e \in [Settings -> BOOLEAN] :
+                  \E lc \in LocClasses : \E dx \in DefLists :
+                    x = Cfg(E, k, e, [s \in Stores |-> lc], [s \in Stores |-> dx])
+InitCross == \E E \in {{}, {2}} : \E ks \in KeyStates : \E b \in BOOLEAN :
+               \E l \in [Stores -> LocClasses] : \E d \in [Stores -> DefLists] :
+                 x = Cfg(E, [i \in 1..4 |-> IF i \in E THEN All(ks) ELSE All("absent")], All(b), l, d)
 
 Schemes == {"unix", "tcp", "tcp4", "tcp6", "udp", "udp4", "udp6", "ws", "foo", "http", "file", ""}
 Uris == {Uri(sc, a, p, "") : sc \in Schemes \ {"unix", ""}, a \in {"h", "127.0.0.1", "::1", "example.org"}, p \in {0, 1, 6363, 65535}}
         \cup {Uri("unix", "", 0, p) : p \in {"/p", "/run/nfd/nfd.sock"}}
         \cup {Uri("", "", 0, "")}
 
-Init == IF Mode = "conf" THEN x \in Configs /\ out = Resolve(x)
-        ELSE x \in Uris /\ out = FaceOf(x)
-Next == UNCHANGED <<x, out>>
-Spec == Init /\ [][Next]_<<x, out>>
+\* Mode = "conf" | "face" | "both" (one TLC run for the two domains)
+Init == \/ Mode \in {"conf", "both"} /\ kind = "conf" /\ (InitDiagonal \/ InitCross) /\ out = Resolve(x)
+        \/ Mode \in {"face", "both"} /\ kind = "face" /\ x \in Uris /\ out = FaceOf(x)
+Next == UNCHANGED <<kind, x, out>>
+Spec == Init /\ [][Next]_<<kind, x, out>>
 
-I_Precedence  == Mode = "conf" => P_EnvOverFileOverDefault(x, out)
-I_FirstFile   == Mode = "conf" => P_OnlyFirstExistingFile(x, out)
-I_AsGiven     == Mode = "conf" => P_ExistingUsedAsGiven(x, out)
-I_NextToFile  == Mode = "conf" => P_RelativeNextToFile(x, out)
-I_FallBack    == Mode = "conf" => P_MissingFallsBackToDefault(x, out)
-I_Determined  == Mode = "conf" => \A s \in Stores : out[s].where # {}
-I_Face        == Mode = "face" => P_Face(x, out)
+I_Precedence  == kind = "conf" => P_EnvOverFileOverDefault(x, out)
+I_FirstFile   == kind = "conf" => P_OnlyFirstExistingFile(x, out)
+I_AsGiven     == kind = "conf" => P_ExistingUsedAsGiven(x, out)
+I_NextToFile  == kind = "conf" => P_RelativeNextToFile(x, out)
+I_FallBack    == kind = "conf" => P_MissingFallsBackToDefault(x, out)
+I_Determined  == kind = "conf" => \A s \in Stores : out[s].where # {}
+I_Face        == kind = "face" => P_Face(x, out)
 
 \* vacuity: the situations the clauses talk about are in the product
 Witnesses ==
   /\ TLCGet("distinct") > 0          \* (a POSTCONDITION may not be a constant-level formula)
-  /\ IF Mode = "conf"
-     THEN /\ \E c \in Configs : c.env["pib"] /\ c.exist # {} /\ c.key[FirstExisting(c)]["pib"] = "present"
-          /\ \E c \in Configs : Cardinality(c.exist) = 2 /\ ~c.env["transport"]
-                                /\ c.key[FirstExisting(c)]["transport"] = "commented" /\ c.key[MaxOf(c.exist)]["transport"] = "present"
-          /\ \E c \in Configs : c.loc["tpm"] = "relE" /\ c.exist # {} /\ c.env["tpm"]
-          /\ \E c \in Configs : c.loc["pib"] = "absM" /\ ~c.defx["pib"][1] /\ Winner(c, "pib").k = "file"
-          /\ \E c \in Configs : c.loc["pib"] # c.loc["tpm"] /\ c.defx["pib"] # c.defx["tpm"]
-     ELSE /\ \E u \in Uris : u.port = 0 /\ FaceOf(u).k = "udp"
+  /\ (Mode \in {"conf", "both"}) =>
+          \* environment and file both give a value; first file comments a key out that the second one has;
+          \* relative location with a configuration file; missing location and missing default
+          /\ \E E \in Patterns : \E k \in KeyFns(E) : E # {} /\ k[MinOf(E)]["pib"] = "present"
+          /\ \E E \in Patterns : \E k \in KeyFns(E) : Cardinality(E) = 2 /\ k[MinOf(E)]["transport"] = "commented"
+                                                         /\ k[MaxOf(E)]["transport"] = "present"
+          /\ "relE" \in LocClasses /\ "absM" \in LocClasses /\ <<FALSE>> \in DefLists /\ <<TRUE>> \in DefLists
+  /\ (Mode \in {"face", "both"}) =>
+          /\ \E u \in Uris : u.port = 0 /\ FaceOf(u).k = "udp"
           /\ \E u \in Uris : FaceOf(u).k = "err"
 =============================================================================
